@@ -68,7 +68,10 @@ def build_policy(p: dict):
         if not isinstance(n, int) or n < 1:
             raise InvalidScenario("max_requests must be >= 1")
         pol = SlidingWindowPolicy(window_size_seconds=w, max_requests=n)
-        return pol, {"type": t, "win_ns": wn, "n": n, "period_ns": wn}
+        # the bound is judged against the configured window as an exact rational (decimal reading of the float's
+        # shortest repr), never against the truncated nanosecond value the repo's Instant/Duration conversions produce
+        return pol, {"type": t, "win_ns": wn, "win_exact": Fraction(str(float(w))) * NS, "n": n, "period_ns": wn,
+                     "trunc_ns": int(w * NS)}
     if t == "fixed":
         w, n = p.get("window", 1.0), p.get("n", 1)
         wn = whole_ns(w, "window")
@@ -283,12 +286,13 @@ def bound_leaky(ts: list[int], rate: Fraction):
     return None
 
 
-def bound_sliding(ts: list[int], win_ns: int, n: int):
-    """Weaker reading: no half-open window [a, a+W) holds more than N."""
+def bound_sliding(ts: list[int], win, n: int):
+    """Weaker reading: no half-open window [a, a+W) holds more than N, i.e. N+1 admissions must span >= W.
+    `win` is the window length in nanoseconds as an exact rational (or int)."""
     for i in range(len(ts) - n):
-        if ts[i + n] - ts[i] < win_ns:
+        if ts[i + n] - ts[i] < win:
             return ("window", f"{n + 1} requests admitted within [{ts[i]}ns, {ts[i + n]}ns], "
-                    f"a span of {ts[i + n] - ts[i]}ns < window {win_ns}ns (max_requests={n})")
+                    f"a span of {ts[i + n] - ts[i]}ns < window {float(win):.3f}ns (max_requests={n})")
     return None
 
 
